@@ -80,14 +80,17 @@ def rand_history(rng, prof, other_defs):
             start = gen.rand_word(rng, prof["sigma"], 4) if rng.random() < 0.7 else None
             rk = rng.choice([0, 0, 1])          # 0: default symbol order, 1: reversed order through key=
             r2 = rng.random()
+            # a third of these searches are for one length only (min_length = max_length = k, the length of the
+            # count/words queries around them)
+            mx, mn = (k, k) if rng.random() < 0.35 else (K, 0)
             if r2 < 0.3:
-                hist.append(["successors", start, rng.choice([0, 1, 2, 4]), K, rk])
+                hist.append(["successors", start, rng.choice([0, 1, 2, 4]), mx, rk, mn])
             elif r2 < 0.5:
-                hist.append(["successor", start, K, rk])
+                hist.append(["successor", start, mx, rk, mn])
             elif r2 < 0.8:
-                hist.append(["predecessors", start if start is not None else "", rng.choice([1, 2, 4, 50]), K, rk])
+                hist.append(["predecessors", start if start is not None else "", rng.choice([1, 2, 4, 50]), mx, rk, mn])
             else:
-                hist.append(["predecessor", start if start is not None else "", K, rk])
+                hist.append(["predecessor", start if start is not None else "", mx, rk, mn])
     return hist
 
 
@@ -132,16 +135,19 @@ def run_query(d, q, sy, others):
         return outcome(lambda: d == others[q[1]])[:2]
     if kind == "le":
         return outcome(lambda: d <= others[q[1]])[:2]
-    def kw(rk):
-        return {"key": (lambda c: -ord(c))} if rk else {}
+    def kw(rk, mn):
+        out = {"key": (lambda c: -ord(c))} if rk else {}
+        if mn:
+            out["min_length"] = mn[0]
+        return out
     if kind == "successors":
-        return outcome(lambda: list(itertools.islice(d.successors(q[1], max_length=q[3], **kw(q[4])), q[2])))[:2]
+        return outcome(lambda: list(itertools.islice(d.successors(q[1], max_length=q[3], **kw(q[4], q[5:])), q[2])))[:2]
     if kind == "successor":
-        return outcome(lambda: d.successor(q[1], max_length=q[2], **kw(q[3])))[:2]
+        return outcome(lambda: d.successor(q[1], max_length=q[2], **kw(q[3], q[4:])))[:2]
     if kind == "predecessors":
-        return outcome(lambda: list(itertools.islice(d.predecessors(q[1], max_length=q[3], **kw(q[4])), q[2])))[:2]
+        return outcome(lambda: list(itertools.islice(d.predecessors(q[1], max_length=q[3], **kw(q[4], q[5:])), q[2])))[:2]
     if kind == "predecessor":
-        return outcome(lambda: d.predecessor(q[1], max_length=q[2], **kw(q[3])))[:2]
+        return outcome(lambda: d.predecessor(q[1], max_length=q[2], **kw(q[3], q[4:])))[:2]
     raise ValueError(kind)
 
 
@@ -404,7 +410,8 @@ def run(ctx):
         if i % 5 == 4:
             check_dfa_history(ctx, ddef, hist, other_defs, tag, mutable=True)
     for i in range(ctx.n(300, 3000)):
-        ndef = gen.rand_nfa_def(rng)
+        # (half of them with empty-string rings, chains and diamonds through up to 7 states)
+        ndef = gen.rand_nfa_eps_rich(rng, nmax=7) if i % 2 else gen.rand_nfa_def(rng)
         sigma = "".join(sorted(ndef["input_symbols"]))
         other_defs = [gen.rand_nfa_def(rng, nmax=4, alphabet=sigma), ndef]
         check_nfa_history(ctx, ndef, rand_nfa_history(rng, ndef, len(other_defs)), other_defs, "random")
